@@ -27,6 +27,8 @@ EXTRA = {
     "C01-m8": ["C19"], "C02-m7": ["C05"], "C02-m9": ["C01", "C17"], "C03-m7": ["C04"], "C03-m8": ["C04"], "C03-m9": ["C04"],
     "C05-m7": ["C19"], "C05-m8": ["C15"], "C05-m9": ["C11"], "C08-m7": ["C19"], "C08-m8": ["C02"], "C09-m8": ["C19"],
     "C10-m9": ["C07"], "C11-m8": ["C18"], "C11-m9": ["C04"], "C14-m9": ["C11"], "C20-m7": ["C18"], "C15-m8": ["C04"],
+    # sixth wave: changes filed under C03 whose trigger is a (domain) matching function - C14's sentence, not C03's
+    "C03-m16": ["C14", "C04"], "C03-m18": ["C14"],
 }
 # changes that no longer apply to /repo because the defect they relied on was repaired in the meantime
 SUPERSEDED = {
